@@ -172,6 +172,14 @@ class Explorer:
                 return v
         if root[0] == "L":
             return SYM(("uninit", root, path))
+        # one spelling for the payload of an enum-typed location: field(init(loc), i), which is also what a copy of the
+        # location followed by a pattern match / unwrap produces
+        for i, el in enumerate(path):
+            if el[0] == "dc":
+                v = SYM(("init", root, path[:i]))
+                for el2 in path[i:]:
+                    v = self.project_val(st, v, el2)
+                return v
         return SYM(("init", root, path))
 
     def write_loc(self, st, root, path, val):
@@ -1158,10 +1166,36 @@ class Explorer:
                 return ret(SYM(self.cap(("field", v[1], 0))))
             st.effects.append(("unwrap", p, v, site, "open"))
             return None
-        if p in ("std::result::Result::<T, E>::unwrap_or", "std::option::Option::<T>::unwrap_or"):
+        if p in ("std::result::Result::<T, E>::unwrap_or", "std::option::Option::<T>::unwrap_or", "std::option::Option::<T>::or"):
             v = args[0]
+            is_or = p.endswith("::or")
             if v[0] == "agg":
+                if is_or:
+                    return ret(v if v[2] == "Some" else args[1])
                 return ret(v[3][0] if v[2] in ("Ok", "Some") else args[1])
+            if v[0] == "sym":
+                # decide the variant: one successor per feasible variant
+                adt = "std::option::Option" if "option" in p else "std::result::Result"
+                good, bad = ("Some", "None") if adt.endswith("Option") else ("Ok", "Err")
+                dt = ("discr", v[1], adt)
+                alts = []
+                for variant in (good, bad):
+                    s2 = st.clone()
+                    if self.constrain(s2, dt, "eq", self.variant_discr(adt, variant)):
+                        k2 = self.clone_stack(stack)
+                        if variant == good:
+                            val = v if is_or else SYM(self.cap(("field", v[1], 0)))
+                        else:
+                            val = args[1]
+                        self.write_place(s2, k2[-1], dest, val, site)
+                        if target is None:
+                            continue
+                        k2[-1].bb = target
+                        alts.append((s2, k2))
+                if not alts:
+                    self.finish_path(st, None, "diverge")
+                    return "stop"
+                return ("fork", alts)
             return None
         if p == "std::ops::Try::branch":
             v = args[0]
@@ -1278,7 +1312,7 @@ class Explorer:
             b = self.deref(st, args[1])
             op = {"lt": "Lt", "le": "Le", "gt": "Gt", "ge": "Ge"}[name]
             return ret(self.binop(st, op, a, b))
-        if p in ("core::slice::<impl [T]>::is_empty", "std::vec::Vec::<T, A>::is_empty", "core::str::<impl str>::is_empty"):
+        if p in ("std::slice::<impl [T]>::is_empty", "std::vec::Vec::<T, A>::is_empty", "std::str::<impl str>::is_empty"):
             a = self.deref(st, args[0])
             if a[0] == "vec":
                 return ret(C(1 if not a[1] else 0, "bool")) if not any(isinstance(x, tuple) and x and x[0] in ("evs?", "nested", "sub") for x in a[1]) else None
